@@ -46,8 +46,12 @@ class E2Report:
         self.r.functions.append({"site": site, "code": fn or site, "paths": res.paths, "completed": res.completed, "infeasible": res.infeasible,
                                  "branch_decisions": res.decisions, "solver_queries": res.queries, "solver_s": round(res.solver_s, 3),
                                  "wall_s": round(time.time() - t0, 2), "budget_hit": res.budget_hit})
-        self.r.obligations.append({"name": site, "verdict": "unsat" if not res.failures and not res.budget_hit and not res.unknown else ("sat" if res.failures else "unknown"),
-                                   "secs": round(res.solver_s, 3), "kind": "obligation", "paths": res.paths, "queries": res.queries})
+        failed = {f[0] for f in res.failures}
+        bad_all = res.budget_hit or res.unknown
+        for label, n in sorted(res.check_labels.items()):
+            self.r.obligations.append({"name": f"{site}:{label}", "verdict": "sat" if label in failed else ("unknown" if bad_all else "unsat"),
+                                       "secs": 0.0, "kind": "obligation", "validity_queries": n, "paths": res.paths})
+        self.r.extra["solver_queries"] = self.r.extra.get("solver_queries", 0) + res.queries
         for s in res.samples[:2]:
             self.r.samples.append({"site": site, **s})
         if res.completed == 0 and not res.failures:
